@@ -406,15 +406,28 @@ func (p *Prog) fingerprint(fn *types.Func) string {
 	}
 	info := p.DeclPkg[fn].TypesInfo
 	rename := map[string]string{}
+	// every identifier that names something declared in the repository (functions, types, struct fields,
+	// constants, package-level variables) is erased: renaming any of them does not change the fingerprint
 	ast.Inspect(decl, func(n ast.Node) bool {
 		if id, ok := n.(*ast.Ident); ok {
-			if f, ok := info.Uses[id].(*types.Func); ok && f.Pkg() != nil && strings.HasPrefix(f.Pkg().Path(), modPath) {
-				rename[id.Name] = "F"
+			o := info.Uses[id]
+			if o == nil {
+				o = info.Defs[id]
+			}
+			if o != nil && o.Pkg() != nil && strings.HasPrefix(o.Pkg().Path(), modPath) {
+				switch o.(type) {
+				case *types.Func, *types.TypeName, *types.Const:
+					rename[id.Name] = "R"
+				case *types.Var:
+					if v := o.(*types.Var); v.IsField() || v.Parent() == o.Pkg().Scope() {
+						rename[id.Name] = "R"
+					}
+				}
 			}
 		}
 		return true
 	})
-	rename[fn.Name()] = "F"
+	rename[fn.Name()] = "R"
 	c := p.CanonFunc(fn, rename)
 	h := sha256.Sum256([]byte(c))
 	return hex.EncodeToString(h[:12])
@@ -485,6 +498,10 @@ func (p *Prog) funcByFingerprint(rel, name string) *types.Func {
 			continue
 		}
 		if p.fingerprint(fn) == want {
+			// a function that still carries a recorded name with this fingerprint is itself, not the renamed one
+			if own, ok := p.anchorTab[anchorKey(rel, fn)]; ok && own == want {
+				continue
+			}
 			found = append(found, fn)
 		}
 	}
